@@ -527,6 +527,8 @@ class EdgeQLSourceGenerator(codegen.SourceGenerator):
         self.write(' ')
         self._block_ws(0)
         self._write_keywords('UNION ')
+        if node.result_alias:
+            self.write(ident_to_str(node.result_alias), ' := ')
         self.visit(node.result)
 
         if node.where:
